@@ -28,7 +28,7 @@ package tcp
 //@   props C06 C03
 //@   ensures ret <==> tcpchain(decoded)
 //@ func (*ScanMethod).ProcessPacketData
-//@   props C06 C03
+//@   props C06 C03 C16
 //@   observe DecodeLayers, pktFilter, pktFlags, String, Put
 //@   entry row undecodable: [call DecodeLayers(s.parser, data, _) as (e)] when e != nil && ret == e -> exit
 //@   entry row otherframe:  [call DecodeLayers(s.parser, data, _) as (e)] when e == nil && !tcpchain(s.rcvDecoded) && ret == nil -> exit
@@ -70,7 +70,7 @@ package tcp
 //@ pred iphdr(ip *layers.IPv4, r *scan.Request, id0 int) = fresh(ip) && ip.SrcIP == r.SrcIP && ip.DstIP == r.DstIP && ip.Protocol == 6 && ip.Version == 4 && ip.Id == 1 + id0 && 1 <= ip.Id && ip.Id <= 65535 && ip.TTL == 64
 //@ pred ethhdr(e *layers.Ethernet, r *scan.Request) = fresh(e) && e.SrcMAC == r.SrcMAC && e.DstMAC == r.DstMAC && e.EthernetType == 2048
 //@ func (*PacketFiller).Fill
-//@   props C05 C11 C17
+//@   props C05 C11 C17 C01
 //@   observe rand.Intn, rand.Uint32, SetNetworkLayerForChecksum, gopacket.SerializeLayers
 //@   entry row cksumerr: [call rand.Intn(65535) as (id0) ; call rand.Intn(28232) as (sp0) ; call rand.Uint32() as (sq) ; call SetNetworkLayerForChecksum(bind_ck, bind_n) as (ce)] when ce != nil && ret == ce -> exit
 //@   entry row vpn:   [call rand.Intn(65535) as (id0) ; call rand.Intn(28232) as (sp0) ; call rand.Uint32() as (sq) ; call SetNetworkLayerForChecksum(bind_ck, bind_n) as (ce) ;
@@ -192,3 +192,7 @@ package tcp
 //@   exit require ns:  call WriteRune(_, 110) when pkt.NS then true
 //@   exit forbid  ns:  call WriteRune(_, 110) when !pkt.NS
 //@   exit require out: call String(_) as (r) when true then ret == r
+
+// plain-text form of a record: printing never panics, whatever the scanned host put into the record (C03 C16)
+//@ func (*ScanResult).String
+//@   props C03 C16
